@@ -160,7 +160,9 @@ fn sc_explicit(ctx: &mut Ctx) {
     let order = ctx.choose_free(2); // 0: collateral first then balance, 1: balance first
     // an earlier, successful use of a helper on the same builder (the fields are then set again)
     let prior = ctx.choose_free(3);
-    ctx.observe(&(mask, helper, coin_sel, asset_sel, cpb, order, prior));
+    // what else the explicit return output carries (it all counts towards its size and so its minimum)
+    let ret_extra = ctx.choose_free(4);
+    ctx.observe(&(mask, helper, coin_sel, asset_sel, cpb, order, prior, ret_extra));
     let mut p = Params::mainnet();
     p.coins_per_byte = cpb;
     let mut tb = TransactionBuilder::new(&p.config());
@@ -182,7 +184,17 @@ fn sc_explicit(ctx: &mut Ctx) {
         let _ = tb.add_change_if_needed(&change);
     }
     // the return's min-ADA with the inputs' assets, for the boundary cases
-    let probe = TransactionOutput::new(&change, &value_of(0, &[(0, ta), (1, tbq)]));
+    let dress = |o: &mut TransactionOutput| match ret_extra {
+        1 => o.set_data_hash(&DataHash::from_bytes(vec![0xd7; 32]).unwrap()),
+        2 => o.set_plutus_data(&PlutusData::new_bytes(vec![0xe1; 64])),
+        3 => o.set_script_ref(&ScriptRef::new_plutus_script(&PlutusScript::new_v2(vec![0x5c; 120]))),
+        _ => {}
+    };
+    let mut probe = TransactionOutput::new(&change, &value_of(0, &[(0, ta), (1, tbq)]));
+    let bare_min = guard(|| min_ada_for_output(&probe, &DataCost::new_coins_per_byte(&bn(cpb)))).ok().and_then(|r| r.ok()).map(|x| u(&x)).unwrap_or(1_000_000);
+    if helper == 0 {
+        dress(&mut probe);
+    }
     let min_ret = guard(|| min_ada_for_output(&probe, &DataCost::new_coins_per_byte(&bn(cpb)))).ok().and_then(|r| r.ok()).map(|x| u(&x)).unwrap_or(1_000_000);
     let mut prior_ok = false;
     if prior == 1 {
@@ -211,7 +223,8 @@ fn sc_explicit(ctx: &mut Ctx) {
             5 => tc.saturating_add(1),
             6 => tc / 2,
             7 => 0,
-            _ => 65_536,
+            // between the minimum of the bare output and the minimum of the output as carried
+            _ => (bare_min + min_ret) / 2,
         };
         let assets: Vec<(usize, u64)> = match asset_sel {
             0 => vec![(0, ta), (1, tbq)],
@@ -225,7 +238,11 @@ fn sc_explicit(ctx: &mut Ctx) {
             6 => vec![(0, ta), (1, tbq), (10, 7)],
             _ => vec![(0, ta), (1, tbq), (10, 1), (11, 1)],
         };
-        let ret = TransactionOutput::new(&change, &value_of(coin, &assets));
+        let mut ret = TransactionOutput::new(&change, &value_of(coin, &assets));
+        dress(&mut ret);
+        if ret_extra != 0 {
+            ctx.hit("return-output-with-datum-or-script-ref");
+        }
         what = format!("collateral {:?} (coin {}, A {}, B {}) ; prior call {} ; set_collateral_return_and_total(return coin {} assets {:?}) ; cpb {} ; order {}", sel, tc, ta, tbq, prior, coin, assets, cpb, order);
         res = guard(|| tb.set_collateral_return_and_total(&ret));
     } else {
@@ -241,7 +258,7 @@ fn sc_explicit(ctx: &mut Ctx) {
             7 => 65_536,
             _ => 0x1_0000_0000,
         };
-        if asset_sel != 0 {
+        if asset_sel != 0 || ret_extra != 0 {
             return;
         }
         what = format!("collateral {:?} (coin {}, A {}, B {}) ; prior call {} ; set_total_collateral_and_return(total {}) ; cpb {} ; order {}", sel, tc, ta, tbq, prior, total, cpb, order);
@@ -372,10 +389,10 @@ pub fn scenario(name: &str, tier: Tier) -> Option<BoxedScenario> {
 
 pub fn run(tier: Tier, seed: u64) -> i32 {
     let mut rep = Report::new(P, tier, seed);
-    rep.rule = "collateral input sets of size 1..3 (thorough 1..5) over 5 candidates (ADA at three widths, ADA+A, ADA+A+B) x {set_collateral_return_and_total with 9 return coins around min-ADA / the input total x 8 asset choices (exact, fewer, more, another policy, none, partial, another asset name under a held policy x2); set_total_collateral_and_return with 9 totals} x coins_per_byte {4310, 1} x both orders of setting collateral and balancing; percentage helper: collateral sets (incl. none) x 7 percentages x 4 output sizes (one beyond everything offered, so that the helper fails while balancing) x 2 strategies. distinct = distinct argument tuples".into();
+    rep.rule = "collateral input sets of size 1..3 (thorough 1..5) over 5 candidates (ADA at three widths, ADA+A, ADA+A+B) x {set_collateral_return_and_total with 9 return coins around min-ADA / the input total x 8 asset choices (exact, fewer, more, another policy, none, partial, another asset name under a held policy x2); set_total_collateral_and_return with 9 totals} x coins_per_byte {4310, 1} x 4 dressings of the explicit return output (plain, data hash, 64-byte inline datum, script reference) x both orders of setting collateral and balancing; percentage helper: collateral sets (incl. none) x 7 percentages x 4 output sizes (one beyond everything offered, so that the helper fails while balancing) x 2 strategies. distinct = distinct argument tuples".into();
     rep.assume("the raw pass-through setters set_collateral_return / set_total_collateral validate nothing by design and are not entry points of this property");
     rep.trusted_base = vec!["notes/ledger_rules.md §7".into(), "refcbor".into()];
-    rep.required_hits = vec!["ok:return_and_total", "ok:total_and_return", "ok:percentage-helper", "equation-holds", "asset-carrying-collateral", "err:assets-left-in-total", "err:return-below-min-ada", "err:total-exceeds-inputs", "helper-used-twice", "percentage-helper-err", "percentage-helper-err-in-balancing", "pct-with-remainder"];
+    rep.required_hits = vec!["ok:return_and_total", "ok:total_and_return", "ok:percentage-helper", "equation-holds", "asset-carrying-collateral", "err:assets-left-in-total", "err:return-below-min-ada", "err:total-exceeds-inputs", "helper-used-twice", "return-output-with-datum-or-script-ref", "percentage-helper-err", "percentage-helper-err-in-balancing", "pct-with-remainder"];
     for name in ["explicit", "percentage"] {
         let f = scenario(name, tier).unwrap();
         let st = explore(name, &*f, &Opts::new(seed));
